@@ -199,15 +199,27 @@ Definition tail_value (e : emission) (c : jctx) (v : jval) : payload :=
   | JGifts => PNum (em_gifts e)
   end.
 
+(** the fixed cells below the transaction rows (source order) *)
+Definition tail_cells (e : emission) : list cellw :=
+  map (fun x => let '(dr, col, v) := x in cw (em_row_index e + dr) col (tail_value e (em_ctx e 0) v)) gen_jp_asset_tail.
+
 Definition asset_ops (e : emission) : list op :=
-  let c := em_ctx e 0 in
   labels gen_jp_tmpl_asset_cells
   ++ [OW (cw (fst gen_jp_label_cell) (snd gen_jp_label_cell) (PStr (em_asset e)))]
   ++ rows_ops gen_jp_first_row (em_rows e)
-  ++ map (fun x => let '(dr, col, v) := x in OW (cw (em_row_index e + dr) col (tail_value e c v))) gen_jp_asset_tail.
+  ++ map OW (tail_cells e).
 
 Definition asset_sheet (e : emission) : sheetw :=
   sheet_of (tax_sheet_name (em_asset e) (em_year e)) gen_jp_tmpl_asset_rows gen_jp_tmpl_asset_cols (asset_ops e).
+
+(** one line of a yearly summary sheet (insert a row at the sheet's current offset, fill it), then -- back in
+    __generate_asset, after the offset has been incremented -- the totals line *)
+Definition line_cells (e : emission) (off : Z) : list cellw :=
+  map (fun x => cw off (fst x) (tail_value e (em_ctx e off) (snd x))) gen_jp_summary_line.
+Definition totals_cells (e : emission) (off' : Z) : list cellw :=
+  map (fun x => let '(dr, col, v) := x in cw (off' + dr) col (tail_value e (em_ctx e off') v)) gen_jp_summary_totals.
+Definition step_ops (e : emission) (off : Z) : list op :=
+  (OIns off :: map OW (line_cells e off)) ++ map OW (totals_cells e (off + 1)).
 
 (** ---------- __generate_asset: grouping by year and the year loop *)
 Section Flags.
@@ -242,12 +254,7 @@ Definition summary_step (st : sumst) (e : emission) : sumst :=
   let off := aget_d 0 y offm in
   let sheets := if off =? gen_jp_summary_start                                                      (* ... == 7: new sheet *)
                 then aset y (labels gen_jp_tmpl_summary_cells) (ss_sheets st) else ss_sheets st in
-  let c := em_ctx e off in
-  let line := OIns off :: map (fun x => OW (cw off (fst x) (tail_value e c (snd x)))) gen_jp_summary_line in
-  let off' := off + 1 in
-  let c' := em_ctx e off' in
-  let totals := map (fun x => let '(dr, col, v) := x in OW (cw (off' + dr) col (tail_value e c' v))) gen_jp_summary_totals in
-  {| ss_off := aset y off' offm; ss_sheets := aset y (aget_d [] y sheets ++ line ++ totals) sheets |}.
+  {| ss_off := aset y (off + 1) offm; ss_sheets := aset y (aget_d [] y sheets ++ step_ops e off) sheets |}.
 
 Definition summary_state (ems : list emission) : sumst := fold_left summary_step ems {| ss_off := []; ss_sheets := [] |}.
 Definition summary_sheets (ems : list emission) : list sheetw :=
